@@ -2,8 +2,6 @@
 
 use proptest::prelude::*;
 use serde_json::{json, Value};
-use std::convert::TryFrom;
-use varlink_parser::IDL;
 use vl_model::ctx::{hash64, load_replay, ncpu, parallel, Acc, Args, Ctx};
 use vl_model::idl::*;
 use vl_model::pt::{self, Fail};
@@ -21,92 +19,7 @@ duplicated name); inputs the recogniser marks `unspecified` are skipped and coun
 hyphen or upper case in its interface name, a nested optional/array/map, trivia inside parentheses, a duplicate, or \
 is a near-miss mutant; distinct by text.";
 
-#[derive(Debug, PartialEq, Clone, Copy)]
-pub enum Outcome {
-    BothAccept,
-    BothReject,
-    Duplicate,
-    Unspecified,
-}
-
-fn reason_class(msg: &str) -> String {
-    let cut = msg.find(|c: char| c == '`' || c.is_ascii_digit()).unwrap_or(msg.len());
-    msg[..cut].trim().replace(' ', "-")
-}
-
-pub fn parse_guarded(text: &str) -> Result<Result<Parsed, varlink_parser::Error>, String> {
-    std::panic::catch_unwind(|| IDL::try_from(text).map(|i| from_parsed(&i))).map_err(|p| pt::panic_text(&p))
-}
-
-/// Differential oracle. `intended` (when the text was generated from a known AST) is compared too.
-pub fn differential(text: &str, intended: Option<&Idl>) -> Result<Outcome, Fail> {
-    let verdict = recognise(text);
-    let parsed = parse_guarded(text).map_err(|p| Fail::new("parser/panic", format!("IDL::try_from panicked: {}", p)))?;
-    if let Some(want) = intended {
-        // self-check of the harness: the recogniser must agree with the generator
-        match &verdict {
-            Verdict::Accept(a) if a == want => {}
-            other => {
-                return Err(Fail::new(
-                    "HARNESS/recogniser-disagrees-with-generator",
-                    format!("reference recogniser says {:?} for a text generated from {:?}", other, want),
-                ))
-            }
-        }
-    }
-    match (verdict, parsed) {
-        (Verdict::Unspecified(_), _) => Ok(Outcome::Unspecified),
-        (Verdict::Accept(ast), Ok(got)) => {
-            let dup = ast.duplicated_names();
-            if !dup.is_empty() {
-                return Err(Fail::new(
-                    "parser/duplicate-accepted",
-                    format!("names {:?} are defined more than once but the text was accepted", dup),
-                ));
-            }
-            if let Some(d) = diff_parsed(&split_kinds(&ast), &got, true) {
-                let class = if d.contains("documentation") {
-                    "documentation"
-                } else if d.contains("order of appearance") {
-                    "member-order"
-                } else if d.contains("interface name") {
-                    "interface-name"
-                } else {
-                    "definition"
-                };
-                return Err(Fail::new(format!("parser/structure-differs/{}", class), d));
-            }
-            Ok(Outcome::BothAccept)
-        }
-        (Verdict::Accept(ast), Err(varlink_parser::Error::Idl(msg))) => {
-            let dup = ast.duplicated_names();
-            if dup.is_empty() {
-                return Err(Fail::new(
-                    "parser/valid-text-reported-as-duplicate",
-                    format!("no name is defined twice but the parser reports: {}", msg),
-                ));
-            }
-            for d in &dup {
-                if !msg.contains(&format!("`{}`", d)) {
-                    return Err(Fail::new(
-                        "parser/duplicate-not-named",
-                        format!("`{}` is defined more than once but the error does not name it: {}", d, msg),
-                    ));
-                }
-            }
-            Ok(Outcome::Duplicate)
-        }
-        (Verdict::Accept(_), Err(varlink_parser::Error::Parse { line, column })) => Err(Fail::new(
-            "parser/rejects-grammatical",
-            format!("text follows the grammar but the parser reports a syntax error at column {} of line {:?}", column, line),
-        )),
-        (Verdict::Reject(why), Ok(_)) | (Verdict::Reject(why), Err(varlink_parser::Error::Idl(_))) => Err(Fail::new(
-            format!("parser/accepts-ungrammatical/{}", reason_class(&why)),
-            format!("text violates the grammar ({}) but the parser accepted it", why),
-        )),
-        (Verdict::Reject(_), Err(varlink_parser::Error::Parse { .. })) => Ok(Outcome::BothReject),
-    }
-}
+pub use vl_model::oracles::{differential, Outcome};
 
 fn nontrivial(text: &str, mutated: bool, dup: bool) -> bool {
     if mutated || dup {
@@ -558,6 +471,22 @@ pub fn run(args: &Args) -> ! {
     ctx.bump_sample_cap(4);
     let n = ctx.tier.pick(3_000, 50_000);
     part_d(&mut ctx, n);
+    if ctx.tier == vl_model::Tier::Thorough && !ctx.failed() {
+        let mut seeds: Vec<Vec<u8>> = corpus_texts().into_iter().map(|s| s.into_bytes()).collect();
+        let opts = GenOpts::default();
+        for (tape, level) in pt::draw(ctx.seed, "c11-fuzz-seeds", &(tape_strategy(200), 0u8..3), 60) {
+            seeds.push(build(&tape, level, &opts).0.into_bytes());
+        }
+        if let Some(bytes) = vl_model::fuzz::campaign(&mut ctx, "c11_diff", 3_000_000, &seeds, 2048) {
+            let text = String::from_utf8_lossy(&bytes).to_string();
+            match differential(&text, None) {
+                Err(f) => {
+                    ctx.violation(&f.key, &f.what, "c11-text", json!({"text": text, "found_by": "libfuzzer"}));
+                }
+                Ok(_) => ctx.inconclusive("libFuzzer reported a crash that the oracle does not reproduce in-process"),
+            }
+        }
+    }
     ctx.exhaustive = Some(false);
     ctx.finish()
 }
